@@ -47,6 +47,40 @@ def to_scenario(sid, hist, store):
     return {"id": sid, "shards": n, "servers": ["A", "B"], "store": store, "followersBlocked": True, "upstreams": upstreams, "steps": steps}
 
 
+def leadership_scenario(sid, hist, store, suffix):
+    """Leadership.tla history -> scripted-elector scenario (one server).  suffix: after the history every upstream is called
+    in the state reached, then one leaderCheck period passes and everything is inspected"""
+    n = 2
+    ups = {u: name_for(u % n, n, u + 10) for u in (0, 1, 2)}
+    upstreams = [{"name": ups[u], "type": "mif", "strategy": "globalAllocate" if u != 2 else "globalCount", "max": 100, "burst": 0} for u in (0, 1, 2)]
+    steps = [{"k": "hb", "srv": "A", "inst": "i%d" % i} for i in (1, 2)]
+
+    def call(kind, u, inst):
+        out = [{"k": "hb", "srv": "A", "inst": inst}]
+        if kind == "acquire" and u == 2:
+            out.append({"k": "acquire", "srv": "A", "up": ups[u], "inst": inst, "tokens": 1})
+        else:
+            out.append({"k": "report", "srv": "A", "up": ups[u], "inst": inst, "uc": "full", "lc": "honest"})
+        return out
+    for h in hist:
+        k = h["k"]
+        if k in ("setself", "setother", "stopbegin", "cbstart", "cbstop"):
+            steps.append({"k": "el", "srv": "A", "op": k, "shard": h["sh"]})
+        elif k == "tick":
+            steps.append({"k": "sleep", "ms": 1100})
+        elif k == "obs":
+            steps.append({"k": "shardobs"})
+        else:
+            steps += call(k, h["up"], "i%d" % h["inst"])
+    if suffix:
+        for u in (0, 1, 2):
+            steps += call("report", u, "i1") + call("acquire", u, "i2")
+        steps += [{"k": "sleep", "ms": 1100}, {"k": "shardobs"}]
+        for u in (0, 1, 2):
+            steps += call("report", u, "i1")
+    return {"id": sid, "shards": n, "servers": ["A"], "store": store, "elector": "scripted", "upstreams": upstreams, "steps": steps}
+
+
 def main(tier, replay):
     t0 = time.time()
     seed = vlib.seed()
@@ -83,6 +117,23 @@ def main(tier, replay):
             if len(hists) < 10:
                 raise Infra("too few histories")
             scs = [to_scenario(i + 1, h, "local" if i % 3 else "k8s") for i, h in enumerate(hists)]
+            # (c) the guard at callback granularity (Leadership.tla, scripted elector): TLC verifies the implementation's guard and
+            # refutes the "a store means I lead" guard; EVERY reachable L1 state is visited (shortest path) and every upstream called in it
+            for guard, expect in (("view", False), ("store", True)):
+                lm = vlib.tlc("limiter", "Leadership", "Leadership.cfg", workers=8, timeout=900, consts={"Guard": '"%s"' % guard})
+                if bool(lm.violation) != expect:
+                    raise Infra("Leadership.tla guard=%s: unexpected result %s" % (guard, lm.violated()))
+                states, trans = states + lm.distinct, trans + lm.generated
+            allst = vlib.tlc("limiter", "LeadershipGen", "LeadershipStates.cfg", workers=1, timeout=900)
+            prefixes = list({vlib.canon(h): h for h in allst.json_prints("HIST")}.values())
+            if len(prefixes) < 200:
+                raise Infra("Leadership state coverage: only %d prefixes" % len(prefixes))
+            scs += [leadership_scenario(500001 + i, h, "local" if i % 4 else "k8s", True) for i, h in enumerate(prefixes)]
+            nl = 150 if tier == "quick" else 2000
+            lg = vlib.tlc("limiter", "LeadershipGen", "LeadershipGen.cfg", workers=1, timeout=900, simulate="num=%d" % nl, depth=15, tlc_seed=seed)
+            lh = list({vlib.canon(h): h for h in lg.json_prints("HIST")}.values())
+            rng.shuffle(lh)
+            scs += [leadership_scenario(600001 + i, h, "local" if i % 4 else "k8s", False) for i, h in enumerate(lh[:nl])]
         binp = os.path.join(wd, "limsrv.test")
         vlib.go_test_build("./limsrv", binp)
         traces, crashed = vlib.run_test_driver(binp, scs, wd, timeout=1500)
